@@ -374,13 +374,13 @@ def boolT : CedarType := .bool .anyBool
 
 /-- two operands, both typechecked whatever the other's answer (`then_typecheck` runs its continuation on failures
 too): `outside` wins over `fail`; the continuation sees the two types -/
-def both (ra rb : TcResult) (k : CedarType → CedarType → TcResult) : TcResult :=
+def both (ra rb : TcResult) (k : CedarType → Capabilities → CedarType → Capabilities → TcResult) : TcResult :=
   match ra, rb with
+  | .ok (τa, ca), .ok (τb, cb) => k τa ca τb cb
   | .error .outside, _ => .error .outside
   | _, .error .outside => .error .outside
   | .error err, _ => .error err
   | _, .error err => .error err
-  | .ok (τa, _), .ok (τb, _) => k τa τb
 
 /-- `<` / `<=` on the operand types -/
 def cmpType (τa τb : CedarType) : TcResult :=
@@ -402,6 +402,47 @@ def eqType (env : RequestEnv) (a b : Expr) (τa τb : CedarType) : CedarType :=
   else match asLiteral env a, asLiteral env b with
     | some la, some lb => .bool (if la == lb then .tt else .ff)
     | _, _ => boolT
+
+def CedarType.isRecord : CedarType → Bool
+  | .record _ _ => true
+  | _ => false
+def CedarType.isTrue : CedarType → Bool
+  | .bool .tt => true
+  | _ => false
+def CedarType.isFalse : CedarType → Bool
+  | .bool .ff => true
+  | _ => false
+
+/-- result type of `&&` once both operands are typed (rows in the order of the Rust `match`) -/
+def andType (τa τb : CedarType) : CedarType :=
+  match τa, τb with
+  | _, .bool .ff => .bool .ff
+  | τa, .bool .tt => τa
+  | .bool .tt, τb => τb
+  | _, _ => boolT
+/-- result capabilities of `&&` (the `(True, Some(_))` row really is `capability_right.union(&capability_right)`) -/
+def andCaps (τa τb : CedarType) (ca cb : Capabilities) : Capabilities :=
+  match τa, τb with
+  | _, .bool .ff => []
+  | _, .bool .tt => ca.union cb
+  | .bool .tt, _ => cb.union cb
+  | _, _ => ca.union cb
+
+/-- result type of `||` -/
+def orType (τa τb : CedarType) : CedarType :=
+  match τa, τb with
+  | _, .bool .tt => .bool .tt
+  | τa, .bool .ff => τa
+  | .bool .ff, τb => τb
+  | _, _ => boolT
+/-- result capabilities of `||`: the right operand's when it is typed `True` (even though it may never be
+evaluated), the other operand's when one is typed `False`, else the intersection -/
+def orCaps (τa τb : CedarType) (ca cb : Capabilities) : Capabilities :=
+  match τa, τb with
+  | _, .bool .tt => cb
+  | _, .bool .ff => ca
+  | .bool .ff, _ => cb
+  | _, _ => cb.inter ca
 
 /-! ## `SingleEnvTypechecker::typecheck` -/
 
@@ -428,47 +469,36 @@ def typeOf (m : ValidationMode) (s : Schema) (env : RequestEnv) : Expr → Capab
   | .ite c t e, caps =>
     match expectOneOf (typeOf m s env c caps) [boolT] with
     | .error err => .error err
-    | .ok (.bool .tt, cc) =>
-      (match typeOf m s env t (caps.union cc) with
-       | .error err => .error err
-       | .ok (τt, ct) => .ok (τt, ct.union cc))
-    | .ok (.bool .ff, _) => typeOf m s env e caps
-    | .ok (_, cc) =>
-      match typeOf m s env t (caps.union cc), typeOf m s env e caps with
-      | .error .outside, _ => .error .outside
-      | _, .error .outside => .error .outside
-      | .error err, _ => .error err
-      | _, .error err => .error err
-      | .ok (τt, ct), .ok (τe, ce) =>
-        match lub m τt τe with
-        | some τ => .ok (τ, ce.inter (ct.union cc))
-        | none => .error .fail
+    | .ok (τc, cc) =>
+      if τc.isTrue then
+        -- only the `then` branch is typechecked, with the capabilities of the test
+        (match typeOf m s env t (caps.union cc) with
+         | .error err => .error err
+         | .ok (τt, ct) => .ok (τt, ct.union cc))
+      else if τc.isFalse then typeOf m s env e caps
+      else
+        both (typeOf m s env t (caps.union cc)) (typeOf m s env e caps) (fun τt ct τe ce =>
+          match lub m τt τe with
+          | some τ => .ok (τ, ce.inter (ct.union cc))
+          | none => .error .fail)
   | .and a b, caps =>
     match expectOneOf (typeOf m s env a caps) [boolT] with
     | .error err => .error err
-    | .ok (.bool .ff, _) => ok (.bool .ff)
     | .ok (τa, ca) =>
-      match expectOneOf (typeOf m s env b (caps.union ca)) [boolT] with
-      | .error err => .error err
-      | .ok (.bool .ff, _) => ok (.bool .ff)
-      | .ok (.bool .tt, cb) => .ok (τa, ca.union cb)
-      | .ok (τb, cb) =>
-        match τa with
-        | .bool .tt => .ok (τb, cb.union cb)
-        | _ => .ok (boolT, ca.union cb)
+      -- a left operand typed `False` short-circuits *without* typechecking the right operand
+      if τa.isFalse then ok (.bool .ff)
+      else match expectOneOf (typeOf m s env b (caps.union ca)) [boolT] with
+        | .error err => .error err
+        | .ok (τb, cb) => .ok (andType τa τb, andCaps τa τb ca cb)
   | .or a b, caps =>
     match expectOneOf (typeOf m s env a caps) [boolT] with
     | .error err => .error err
-    | .ok (.bool .tt, ca) => .ok (.bool .tt, ca)
     | .ok (τa, ca) =>
-      match expectOneOf (typeOf m s env b caps) [boolT] with
-      | .error err => .error err
-      | .ok (.bool .tt, cb) => .ok (.bool .tt, cb)
-      | .ok (.bool .ff, _) => .ok (τa, ca)
-      | .ok (τb, cb) =>
-        match τa with
-        | .bool .ff => .ok (τb, cb)
-        | _ => .ok (boolT, cb.inter ca)
+      -- a left operand typed `True` short-circuits, keeping its capabilities
+      if τa.isTrue then .ok (.bool .tt, ca)
+      else match expectOneOf (typeOf m s env b caps) [boolT] with
+        | .error err => .error err
+        | .ok (τb, cb) => .ok (orType τa τb, orCaps τa τb ca cb)
   | .unaryApp .not a, caps =>
     match expectOneOf (typeOf m s env a caps) [boolT] with
     | .error err => .error err
@@ -484,39 +514,39 @@ def typeOf (m : ValidationMode) (s : Schema) (env : RequestEnv) : Expr → Capab
     | .error err => .error err
     | .ok _ => ok boolT
   | .binaryApp .eq a b, caps =>
-    both (typeOf m s env a caps) (typeOf m s env b caps) (fun τa τb =>
+    both (typeOf m s env a caps) (typeOf m s env b caps) (fun τa _ τb _ =>
       let τ := eqType env a b τa τb
       if m.isStrict && !strictEqualityOk m τ (some τa) (some τb) then .error .fail else ok τ)
-  | .binaryApp .less a b, caps => both (typeOf m s env a caps) (typeOf m s env b caps) cmpType
-  | .binaryApp .lessEq a b, caps => both (typeOf m s env a caps) (typeOf m s env b caps) cmpType
+  | .binaryApp .less a b, caps => both (typeOf m s env a caps) (typeOf m s env b caps) (fun τa _ τb _ => cmpType τa τb)
+  | .binaryApp .lessEq a b, caps => both (typeOf m s env a caps) (typeOf m s env b caps) (fun τa _ τb _ => cmpType τa τb)
   | .binaryApp .add a b, caps =>
-    both (expectOneOf (typeOf m s env a caps) [.long]) (expectOneOf (typeOf m s env b caps) [.long]) (fun _ _ => ok .long)
+    both (expectOneOf (typeOf m s env a caps) [.long]) (expectOneOf (typeOf m s env b caps) [.long]) (fun _ _ _ _ => ok .long)
   | .binaryApp .sub a b, caps =>
-    both (expectOneOf (typeOf m s env a caps) [.long]) (expectOneOf (typeOf m s env b caps) [.long]) (fun _ _ => ok .long)
+    both (expectOneOf (typeOf m s env a caps) [.long]) (expectOneOf (typeOf m s env b caps) [.long]) (fun _ _ _ _ => ok .long)
   | .binaryApp .mul a b, caps =>
-    both (expectOneOf (typeOf m s env a caps) [.long]) (expectOneOf (typeOf m s env b caps) [.long]) (fun _ _ => ok .long)
+    both (expectOneOf (typeOf m s env a caps) [.long]) (expectOneOf (typeOf m s env b caps) [.long]) (fun _ _ _ _ => ok .long)
   | .binaryApp .mem a b, caps =>
     both (expectOneOf (typeOf m s env a caps) [.anyEntity])
-         (expectOneOf (typeOf m s env b caps) [.set (some .anyEntity), .anyEntity]) (fun τa τb =>
+         (expectOneOf (typeOf m s env b caps) [.set (some .anyEntity), .anyEntity]) (fun τa _ τb _ =>
       match asEuid env a, asEuids env b with
       | some l, some rs =>
         if isActionType l.ty then ok (typeOfActionIn s l rs)
         else typeOfInGeneral s τa τb
       | _, _ => typeOfInGeneral s τa τb)
   | .binaryApp .contains a b, caps =>
-    both (expectOneOf (typeOf m s env a caps) [.set none]) (typeOf m s env b caps) (fun τa τb =>
+    both (expectOneOf (typeOf m s env a caps) [.set none]) (typeOf m s env b caps) (fun τa _ τb _ =>
       let elem : Option CedarType := match τa with
         | .set (some t) => some t
         | _ => none
       if m.isStrict && !strictEqualityOk m boolT elem (some τb) then .error .fail else ok boolT)
   | .binaryApp .containsAll a b, caps =>
-    both (expectOneOf (typeOf m s env a caps) [.set none]) (expectOneOf (typeOf m s env b caps) [.set none]) (fun τa τb =>
+    both (expectOneOf (typeOf m s env a caps) [.set none]) (expectOneOf (typeOf m s env b caps) [.set none]) (fun τa _ τb _ =>
       if m.isStrict && !strictEqualityOk m boolT (some τa) (some τb) then .error .fail else ok boolT)
   | .binaryApp .containsAny a b, caps =>
-    both (expectOneOf (typeOf m s env a caps) [.set none]) (expectOneOf (typeOf m s env b caps) [.set none]) (fun τa τb =>
+    both (expectOneOf (typeOf m s env a caps) [.set none]) (expectOneOf (typeOf m s env b caps) [.set none]) (fun τa _ τb _ =>
       if m.isStrict && !strictEqualityOk m boolT (some τa) (some τb) then .error .fail else ok boolT)
   | .binaryApp .hasTag a b, caps =>
-    both (expectOneOf (typeOf m s env a caps) [.anyEntity]) (expectOneOf (typeOf m s env b caps) [.string]) (fun τa _ =>
+    both (expectOneOf (typeOf m s env a caps) [.anyEntity]) (expectOneOf (typeOf m s env b caps) [.string]) (fun τa _ _ _ =>
       match τa with
       | .entity lub =>
         let τ : CedarType :=
@@ -526,7 +556,7 @@ def typeOf (m : ValidationMode) (s : Schema) (env : RequestEnv) : Expr → Capab
         .ok (τ, [Capability.tag a b])
       | _ => .error .outside)
   | .binaryApp .getTag a b, caps =>
-    both (expectOneOf (typeOf m s env a caps) [.anyEntity]) (expectOneOf (typeOf m s env b caps) [.string]) (fun τa _ =>
+    both (expectOneOf (typeOf m s env a caps) [.anyEntity]) (expectOneOf (typeOf m s env b caps) [.string]) (fun τa _ _ _ =>
       match τa with
       | .entity lub =>
         if caps.has (Capability.tag a b) then
@@ -568,8 +598,7 @@ def typeOf (m : ValidationMode) (s : Schema) (env : RequestEnv) : Expr → Capab
     | .ok (τ, _) =>
       match lookupAttr s τ a with
       | some (true, _) =>
-        let isRecord := match τ with | .record _ _ => true | _ => false
-        .ok (if isRecord || caps.has (Capability.attr e a) then .bool .tt else boolT, [Capability.attr e a])
+        .ok (if τ.isRecord || caps.has (Capability.attr e a) then .bool .tt else boolT, [Capability.attr e a])
       | some (false, _) =>
         .ok (if caps.has (Capability.attr e a) then .bool .tt else boolT, [Capability.attr e a])
       | none => ok (if mayHaveAttr s τ a then boolT else .bool .ff)
